@@ -104,14 +104,16 @@ def run(tier, seed):
             flags += ["--records-per-batch", "1"]
         elif k % 5 == 1:
             flags += ["--records-per-batch", "2"]
-        runs.append({"argv": [mlr] + flags + argv_of(x["c"]), "stdin": b3.dkvp(x["s"]), "timeout_ms": 10000})
+        # ";" separates fields so that values may contain commas (VerbsAggregateCases.RUsep)
+        runs.append({"argv": [mlr, "--ifs", ";", "--ofs", ";"] + flags + argv_of(x["c"]), "stdin": b3.dkvp(x["s"], ";"),
+                     "timeout_ms": 10000})
     t1 = time.time()
     res = vlib.run_cases(runs)
     vlib.confirm_timeouts(runs, res)
     cov["run_wall_s"] = round(time.time() - t1, 1)
     obs = []
     for x, r in zip(cases, res):
-        obs.append({"c": x["c"], "s": x["s"], "out": b3.parse_dkvp(r["stdout"]),
+        obs.append({"c": x["c"], "s": x["s"], "out": b3.parse_dkvp(r["stdout"], ";"),
                     "exit": -2 if r["timed_out"] else r["exit"]})
     t1 = time.time()
     bad, n = b3.validate("VerbsAggregateObs", obs, chunk=2500, threads=int(os.environ.get("VERIF_JOBS", 8)))
